@@ -23,6 +23,7 @@ FAMILY = [
     ("Sub1", "vf.fixtures.Sub1", True, {"w": "int", "z": "float", "k": "optint"}),
     ("Sub2", "vf.fixtures.Sub2", True, {"w": "int", "items": "optlist", "flag": "bool"}),
     ("Kw", "vf.fixtures.Kw", True, {"w": "int"}),
+    ("Leaf", "vf.fixtures.Leaf", True, {"w": "int", "depth": "int"}),  # concrete class below an abstract intermediate
     ("Other", "vf.fixtures.Other", False, {"q": "int"}),
     ("make_base", "vf.fixtures.make_base", True, {"w": "int"}),
     ("NOT_A_CLASS", "vf.fixtures.NOT_A_CLASS", False, {}),
@@ -216,7 +217,7 @@ def short_forms():
     run(1, forms[0], 3)
 
     def harness():
-        ci = S.choice("class", 4)  # Base, Sub1, Sub2, Kw
+        ci = S.choice("class", 5)  # Base, Sub1, Sub2, Kw, Leaf
         form = S.pick("form", forms)
         w = S.pick("w", [0, 1, 7, -3])
         S.note("accepted")
